@@ -538,7 +538,7 @@ def describe_cases(rng, tier):
             ops += ["ic.parse 0 %s" % S("".join(m)), "ic.get 0"]
         elif x < 0.7:
             ops += ["ic.parse 0 %s" % S(rng.choice(["", "[", "[;", "[;]", "[1;2", "1;2]", " [1;2]", "[1,2]", "];[", "[1;2;3]", "[--1;2]", "[1.2.3;4]", "[1;abc]",
-                                                    "[-;1]", "[.;1]", "[e5;1]", "[-.;1]", "[0;-]", "[0;.]", "[0;e5]", "[-e1;1]", "[.e1;1]", "[1e2;.5e1]", "[-1.;1.]", "[25e-1;1e+1]", "[1e-1;1]", "[1e400;inf]", "[1e;2]", "[1e+;2]", "[ ; ]", "[1;]", "[;1]", "[inf;1]", "[1;-inf]", "[0.1;0.2]",
+                                                    "[-;1]", "[.;1]", "[e5;1]", "[-.;1]", "[0;-]", "[0;.]", "[0;e5]", "[-e1;1]", "[.e1;1]", "[1e2;.5e1]", "[-1.;1.]", "[25e-1;1e+1]", "[1e-1;1]", "[1e400;inf]", "[1e400;2]", "[1e-400;1]", "[-1e400;1]", "[0;1e309]", "[0.1;abc]", "[1e;2]", "[1e+;2]", "[ ; ]", "[1;]", "[;1]", "[inf;1]", "[1;-inf]", "[0.1;0.2]",
                                                     "[1e2;1e3]", "[1.;2.]", "[.5;1]", "[-0;0]", "[ -inf ; +inf ]", "]-inf;inf[", "[5;1]", "[1;1["])), "ic.get 0"]
         if len(ops) > 300:
             cases.append(["case d%d rat" % len(cases)] + ops)
